@@ -11,6 +11,7 @@ import (
 	"verif/vstore"
 
 	"github.com/tokenized/bitcoin_reader/headers"
+	"github.com/tokenized/pkg/merkle_proof"
 	"github.com/tokenized/pkg/wire"
 )
 
@@ -36,7 +37,7 @@ func markPrunedPart(thorough bool) *result {
 	work, _ := new(big.Int).SetString("d167cf38dd7a9c078a40d5", 16)
 	const fed, kept = 1500, 300
 	lowest := fed - kept // index of the lowest header held after the clean
-	marks := []int{lowest + 200, lowest + 147, lowest + 146, lowest + 145, lowest + 1, lowest, lowest - 1, lowest - 200, 900}
+	marks := []int{lowest + 200, lowest + 147, lowest + 146, lowest + 145, lowest + 1, lowest, lowest - 1, lowest - 200, lowest - 250, 900}
 	if thorough {
 		marks = append(marks, lowest+150, lowest+148, lowest+144, lowest+2, lowest-2, lowest-146, lowest-147, lowest-148, 1000, 769, 400)
 	}
@@ -79,6 +80,31 @@ func markPrunedPart(thorough bool) *result {
 			if repo.Height() != 556000+m-1 {
 				bad = fmt.Sprintf("after marking %d the reported height is %d", 556000+m, repo.Height())
 				return
+			}
+			// while the header is marked: merkle proofs for blocks below it (a one-transaction reading
+			// of a block: the transaction id is the merkle root, the path is empty) report the block's
+			// true height and that it is on the best chain - also for the heights just brought back
+			// from the header files
+			for _, j := range []int{m - 1, m - 50, m - 147, m - 300, lowest, lowest - 1, lowest - 150, 1100, 1001, 1000, 999, 800, 500, 151} {
+				if j < 1 || j >= m {
+					continue
+				}
+				for _, withHeader := range []bool{true, false} {
+					root := hs[j].MerkleRoot
+					proof := &merkle_proof.MerkleProof{Index: 0, TxID: &root}
+					if withHeader {
+						proof.BlockHeader = hs[j]
+					} else {
+						h := *hs[j].BlockHash()
+						proof.BlockHash = &h
+					}
+					height, best, err := repo.VerifyMerkleProof(ctx, proof)
+					res.evaluations++
+					if err != nil || height != 556000+j || !best {
+						bad = fmt.Sprintf("after header %d was marked invalid (lowest header in memory before: %d): proof for block %d (with header: %t) answered (%d, %t, %v), want (%d, true)", 556000+m, 556000+lowest, 556000+j, withHeader, height, best, err, 556000+j)
+						return
+					}
+				}
 			}
 			if err := repo.MarkHeaderNotInvalid(ctx, *hs[m].BlockHash()); err != nil {
 				bad = fmt.Sprintf("MarkHeaderNotInvalid(%d): %v", 556000+m, err)
